@@ -1,7 +1,170 @@
+(* Props/C02.v — the property theorems for C02 (parsed columns mean what the format says).
+   Only statements, `exact <lemma>` and Print Assumptions live here. *)
 From Coq Require Import ZArith List Bool String.
 From BNP Require Import Base.Prims Model.C02 Proofs.C02.
 Import ListNotations.
 Open Scope Z_scope.
-Theorem C02_vcf_position_shift : forall t j, typed_col t j TIntM1 = match typed_col t j TInt with Col c => Col (map (fun x => match x with CInt v => CInt (v - 1) | y => y end) c) | ColErr => ColErr end.
+
+(* T1: for every table of records — any number n >= 1 of columns, any field widths (0 included, as unequal as
+   you like), LF or CRLF — the delimiter-position table the library builds (flatnonzero of TAB/LF, n from the
+   first line, reshape, carriage-return adjustment) has one row per record, and the text between its start
+   and end offsets is exactly the field, CR removed. *)
+Theorem C02_field_table_correct :
+  forall (crlf : bool) (n : Z) (rows : list (list (list Z))),
+    1 <= n -> rows <> [] ->
+    (forall r, In r rows -> len r = n /\ forall f, In f r -> clean f) ->
+    let file := lay (eol_of crlf) (map (intercalate [9]) rows) in
+    exists t, delim_table 9 file = Some t /\ t_data t = file /\ table_fields t = rows /\ len (t_starts t) = len rows
+              /\ (forall row s, In row (t_starts t) -> In s row -> 0 <= s)
+              /\ (forall row e, In row (t_ends t) -> In e row -> e <= len file).
+Proof. exact field_table_correct. Qed.
+Print Assumptions C02_field_table_correct.
+
+(* T2: an integer column.  Wherever the fields lie in the buffer and however unequal their widths, if every
+   field is a decimal numeral with optional sign, the library's computation — right-aligned zero-filled digit
+   matrix dotted with powers of ten, or (as soon as one field carries a sign) the ragged path with the sign byte
+   overwritten — returns the value of every numeral. *)
+Theorem C02_int_column_correct :
+  forall (data : list Z) (bs : list (Z * Z)),
+    (forall se, In se bs -> 0 <= fst se /\ snd se <= len data /\ numeral (text_at data se) = true) ->
+    parse_int_col data bs = mapM (fun se => int_of_text (text_at data se)) bs.
+Proof. exact int_column_correct. Qed.
+Print Assumptions C02_int_column_correct.
+
+(* T1+T2 on a column of a table: if the table denotes the records (T1), column j parsed as integers is the
+   column of the values of the numerals in field j (and, for VCF, those values minus one). *)
+Theorem C02_int_col_correct :
+  forall t rows j, table_ok t rows -> 0 <= j -> (forall r, In r rows -> j < len r) ->
+    (forall r, In r rows -> numeral (field r j) = true) ->
+    typed_col t j TInt = spec_col rows (j, TInt) /\ typed_col t j TIntM1 = spec_col rows (j, TIntM1).
+Proof. exact (fun t rows j a b c d => conj (int_col_correct t rows j a b c d) (intm1_col_correct t rows j a b c d)). Qed.
+Print Assumptions C02_int_col_correct.
+Theorem C02_str_col_correct :
+  forall t rows j, table_ok t rows -> 0 <= j -> (forall r, In r rows -> j < len r) ->
+    typed_col t j TStr = spec_col rows (j, TStr).
+Proof. exact str_col_correct. Qed.
+Print Assumptions C02_str_col_correct.
+
+(* Whole files, through header skipping, table, column extraction and counting: for EVERY well-formed BED3 file
+   (any '#' header block, >= 1 records of three TAB-free fields, signed or unsigned numerals of any widths, LF or
+   CRLF, some non-empty chromosome name) the model returns one entry per record and exactly the columns the
+   format assigns.  So whenever the implementation agrees with the model on such a file (model_ok), it satisfies
+   the property on it. *)
+Theorem C02_bed3_end_to_end :
+  forall (crlf : bool) (hs : list (list Z)) (rows : list (list (list Z))),
+    (forall h, In h hs -> hd0 h = 35 /\ ~ In 10 h) ->
+    rows <> [] ->
+    (forall r, In r rows -> len r = 3 /\ (forall f, In f r -> clean f)
+                            /\ numeral (field r 1) = true /\ numeral (field r 2) = true) ->
+    (exists r, In r rows /\ field r 0 <> []) ->
+    hd0 (body_of crlf rows) <> 35 ->
+    run Fbed3 None (lay (eol_of crlf) hs ++ body_of crlf rows) = Obs (len rows) (spec_cols Fbed3 None rows) true.
+Proof. exact bed3_end_to_end. Qed.
+Print Assumptions C02_bed3_end_to_end.
+Theorem C02_sizes_end_to_end :
+  forall (crlf : bool) (rows : list (list (list Z))),
+    rows <> [] ->
+    (forall r, In r rows -> len r = 2 /\ (forall f, In f r -> clean f) /\ numeral (field r 1) = true) ->
+    hd0 (body_of crlf rows) <> 35 ->
+    run Fsizes None (body_of crlf rows) = Obs (len rows) (spec_cols Fsizes None rows) true.
+Proof. exact sizes_end_to_end. Qed.
+Print Assumptions C02_sizes_end_to_end.
+
+(* T3: header and comment lines at the top of the file never reach the parser: whatever the lines are (as long
+   as each starts with the format's comment byte), reading resumes exactly at the first record. *)
+Theorem C02_skip_header_correct :
+  forall (c : Z) (crlf : bool) (hs : list (list Z)) (body : list Z),
+    c <> 0 -> (forall h, In h hs -> hd0 h = c /\ ~ In 10 h) -> hd0 body <> c ->
+    skip_header c (lay (eol_of crlf) hs ++ body) = body.
+Proof. exact skip_header_correct. Qed.
+Print Assumptions C02_skip_header_correct.
+
+(* T4: VCF positions are the text minus one; no other format shifts any column. *)
+Theorem C02_vcf_position_shift :
+  forall t j, typed_col t j TIntM1 = match typed_col t j TInt with
+                                     | Col c => Col (map (fun x => match x with CInt v => CInt (v - 1) | y => y end) c)
+                                     | ColErr => ColErr end.
 Proof. exact vcf_position_shift. Qed.
 Print Assumptions C02_vcf_position_shift.
+Theorem C02_position_shift_only_vcf :
+  forall f j, In (j, TIntM1) (schema f) -> j = 1 /\ (f = Fvcf \/ f = Fvcfgt \/ f = Fvcfph \/ f = Fvcfhap).
+Proof. exact position_shift_only_vcf. Qed.
+Print Assumptions C02_position_shift_only_vcf.
+
+(* Optional[int] (BED score, scalar Integer INFO key).  The full statement — "." is missing, anything else is
+   its numeral — is false of the code at /repo HEAD (witness: the column ".", "5"); it holds when no row is
+   the placeholder, or every row is; it holds without guard for the repaired wrapper (notes/C02.fix-1.diff). *)
+Theorem C02_optint_refuted :
+  exists txts, (forall t, In t txts -> t = [46] \/ numeral t = true)
+               /\ parse_with_missing 0 str_to_int_auto txts <> mapM optint_value txts.
+Proof. exact optint_refuted. Qed.
+Print Assumptions C02_optint_refuted.
+Theorem C02_optint_partial :
+  forall txts, (forall t, In t txts -> numeral t = true) ->
+               parse_with_missing 0 str_to_int_auto txts = mapM int_of_text txts.
+Proof. exact optint_partial. Qed.
+Print Assumptions C02_optint_partial.
+Theorem C02_optint_all_missing :
+  forall txts, (forall t, In t txts -> t = [46]) ->
+               parse_with_missing 0 str_to_int_auto txts = Some (map (fun _ => 0) txts).
+Proof. exact optint_all_missing. Qed.
+Print Assumptions C02_optint_all_missing.
+Theorem C02_optint_fixed_correct :
+  forall txts, (forall t, In t txts -> t = [46] \/ numeral t = true) ->
+               parse_with_missing_fixed 0 str_to_int_auto txts = mapM optint_value txts.
+Proof. exact optint_fixed_correct. Qed.
+Print Assumptions C02_optint_fixed_correct.
+
+(* List columns: the code at /repo HEAD attributes values to the wrong records when the list texts end with the
+   comma the BED format allows (witness "10,20," / "10," -> [[10;20;10];[]] instead of [[10;20];[10]]). *)
+Theorem C02_intlist_refuted :
+  exists fields : list (list Z),
+    mapM (fun f => mapM int_of_text (list_items f)) fields = Some [[10; 20]; [10]]
+    /\ parse_split str_to_int_auto (map (fun f => f ++ [9]) fields) = Some [[10; 20; 10]; []].
+Proof. exact intlist_refuted. Qed.
+Print Assumptions C02_intlist_refuted.
+
+(* Identifier (SequenceID) columns are the field texts unless every text is empty (then the code raises). *)
+Theorem C02_sid_partial :
+  forall txts, (exists t, In t txts /\ t <> []) -> sid_col txts = Col (map CBytes txts).
+Proof. exact sid_partial. Qed.
+Print Assumptions C02_sid_partial.
+Theorem C02_sid_all_empty_refuted : exists txts, txts <> [] /\ sid_col txts <> Col (map CBytes txts).
+Proof. exact sid_all_empty_refuted. Qed.
+Print Assumptions C02_sid_all_empty_refuted.
+
+(* Typed INFO lookup fails on a one-record VCF whose INFO is "." (declared scalar Integer key AC): the model
+   of has_field_mask returns the error the code raises, the format says "missing". *)
+Theorem C02_info_short_refuted :
+  let rows := [[46; 10]] in
+  info_col (List.concat rows) (item_table 0 rows) ([65; 67], IInteger, false) = ColErr
+  /\ spec_info_cell ([65; 67], IInteger, false) [46] = Some (CInt 0).
+Proof. exact info_short_refuted. Qed.
+Print Assumptions C02_info_short_refuted.
+
+(* ---------- non-vacuity ---------- *)
+(* a CRLF table with an empty field, a 1-byte field and a 9-byte field in one column meets the hypotheses of T1,
+   and the executable model really returns those fields *)
+Example C02_nonvacuous_table :
+  let rows := [[unhex "63"; unhex ""; unhex "31"]; [unhex "636872313233343536"; unhex "78"; unhex "3939393939"]]%string in
+  option_map table_fields (delim_table 9 (lay (eol_of true) (map (intercalate [9]) rows))) = Some rows.
+Proof. vm_compute. reflexivity. Qed.
+(* widths 1 and 7 in one integer column, the short field first in the buffer (so the matrix row of the first
+   field reaches before the start of the buffer): both values are right *)
+Example C02_nonvacuous_int :
+  let data := unhex "37093132333435363709"%string in
+  parse_int_col data [(0, 1); (2, 9)] = Some [7; 1234567]
+  /\ parse_int_col (unhex "2d37092b3132"%string) [(0, 2); (3, 6)] = Some [-7; 12].
+Proof. vm_compute. split; reflexivity. Qed.
+(* a concrete CRLF BED3 file with a header line, a signed start and widths 1 / 9 in one column meets the
+   hypotheses of the end-to-end theorem; the executable model returns the specified columns *)
+Example C02_nonvacuous_bed3 :
+  let rows := [[unhex "63"; unhex "2d35"; unhex "37"]; [unhex "63687231"; unhex "313233343536373839"; unhex "2b3132"]]%string in
+  run Fbed3 None (lay (eol_of true) [unhex "2368"%string] ++ body_of true rows) = Obs 2 (spec_cols Fbed3 None rows) true
+  /\ spec_cols Fbed3 None rows = [Col [CBytes (unhex "63"%string); CBytes (unhex "63687231"%string)];
+                                  Col [CInt (-5); CInt 123456789]; Col [CInt 7; CInt 12]].
+Proof. vm_compute. split; reflexivity. Qed.
+(* a whole BED6 file through the whole model *)
+Example C02_nonvacuous_run :
+  run Fbed6 None (unhex "2368647209780a63317431093509313209610931302b0a"%string) <> ObsErr.
+Proof. vm_compute. discriminate. Qed.
